@@ -312,7 +312,8 @@ async fn start(level: CommitLevel, uri: &str) -> (Initialized, Senders) {
         soft_blocks: soft_receiver,
         shutdown: shutdown.clone(),
         state: st,
-        blocks_pending_finalization: HashMap::new(),
+        // whatever map type the executor keeps its soft-executed blocks in
+        blocks_pending_finalization: Default::default(),
         metrics: metrics(),
         reader_tasks: JoinMap::new(),
         reader_cancellation_token: shutdown.child_token(),
